@@ -1291,6 +1291,10 @@ func (t *tr) call(c *ast.CallExpr, k func([]string, []kind) string) string {
 	case "maps.Clone":
 		return arg(0, kMap, func(a string) string { return one(a, kMap) })
 	case "strings.ReplaceAll":
+		// Go.replaceAll renders the NON-EMPTY pattern case only (an empty pattern inserts between runes)
+		if lit, ok := c.Args[1].(*ast.BasicLit); !ok || lit.Kind != token.STRING || constant.StringVal(t.info.Types[lit].Value) == "" {
+			t.fail(c, "strings.ReplaceAll with a pattern that is not a non-empty string literal")
+		}
 		return arg(0, kStr, func(a string) string {
 			return arg(1, kStr, func(b string) string {
 				return arg(2, kStr, func(cc string) string { return one("(Go.replaceAll "+a+" "+b+" "+cc+")", kStr) })
